@@ -6,6 +6,7 @@ import (
 	"github.com/internetarchive/Zeno/internal/pkg/config"
 	"github.com/internetarchive/Zeno/internal/pkg/log"
 	"github.com/internetarchive/Zeno/internal/pkg/utils"
+	"github.com/internetarchive/Zeno/internal/pkg/verifhook"
 	"github.com/internetarchive/gocrawlhq"
 )
 
@@ -30,6 +31,7 @@ func websocket() {
 		default:
 			sendIdentify(logger)
 			<-identifyTicker.C
+			verifhook.At("hq.ws.tick")
 		}
 	}
 }
